@@ -210,6 +210,9 @@ impl<S: Sut> World<S> {
             l.push(s);
         }
     }
+    pub fn actor_of(&self, node: usize) -> u8 {
+        self.cfg.actor_ids.get(node).copied().unwrap_or(node as u8)
+    }
     pub fn up(&self, n: usize) -> bool {
         n < self.nodes.len() && self.nodes[n].state.is_some()
     }
@@ -347,7 +350,7 @@ impl<S: Sut> World<S> {
         }
         if self.cfg.on("seq.order") {
             if let Obs::Seq { vals, .. } = &obs {
-                if let Err(e) = self.seq_oracle.observe(vals) {
+                if let Err(e) = self.seq_oracle.observe(n, vals) {
                     return self.fail("seq.order", format!("node {}: {}", n, e));
                 }
             }
@@ -607,7 +610,7 @@ impl<S: Sut> World<S> {
         if !self.up(node) || self.ops.len() >= MAX_OPS || self.tag_ix.contains_key(&tag) {
             return Ok(false);
         }
-        let actor = node as u8;
+        let actor = self.actor_of(node);
         let cur = self.nodes[node].state.clone().unwrap();
         let k_gen = self.nodes[node].k;
         // which read does the client use?
